@@ -6,6 +6,7 @@ demo (must fail), revert, run the demo (must pass).  Writes seeded/<prop>-mK/{pa
 import json, os, shutil, subprocess, sys, time
 
 prop, out = sys.argv[1], sys.argv[2]
+TAG = sys.argv[3] if len(sys.argv) > 3 else ''
 SCR = '/var/tmp/verif-seedval-%s' % prop
 ENV = dict(os.environ, CARGO_TARGET_DIR=SCR + '/target', RUST_BACKTRACE='0', CARGO_NET_OFFLINE='true')
 
@@ -25,7 +26,7 @@ def demo(cwd, name, release):
 os.makedirs(SCR, exist_ok=True)
 if not os.path.isdir(SCR + '/target'):
     subprocess.run('rsync -a /repo/target/ %s/target/' % SCR, shell=True)
-for k in ('m1', 'm2'):
+for k in ('m1', 'm2', 'm3'):
     src = os.path.join(out, k)
     if not os.path.exists(os.path.join(src, 'patch.diff')):
         continue
@@ -33,7 +34,7 @@ for k in ('m1', 'm2'):
     shutil.rmtree(repo, ignore_errors=True)
     subprocess.run('rsync -a --exclude target --exclude .git /repo/ %s/' % repo, shell=True, check=True)
     subprocess.run('git init -q && git add -A && git -c user.email=a@b -c user.name=x commit -qm base', cwd=repo, shell=True, check=True)
-    meta = dict(property=prop, mutation=k, source='independent sub-agent (given only the property text and a scratch worktree)',
+    meta = dict(property=prop, mutation=TAG + k, source='independent sub-agent (given only the property text and a scratch worktree)',
                 base_commit=subprocess.run('git -C /repo rev-parse HEAD', shell=True, capture_output=True, text=True).stdout.strip())
     rc, o = sh('git apply --check %s/patch.diff' % src, repo)
     meta['applies'] = rc == 0
@@ -60,7 +61,7 @@ for k in ('m1', 'm2'):
                        'cargo test --offline %s--test %s' % ('--release ' if release else '', name), 'git apply -R patch.diff',
                        'cargo test --offline %s--test %s' % ('--release ' if release else '', name)]
         meta['confirmed'] = bool(ok and (not d_ok) and d_ok2)
-    dst = '/verif/seeded/%s-%s' % (prop, k)
+    dst = '/verif/seeded/%s-%s%s' % (prop, TAG, k)
     os.makedirs(dst, exist_ok=True)
     for f in ('patch.diff', 'demo.rs', 'notes.md'):
         if os.path.exists(os.path.join(src, f)):
